@@ -97,6 +97,32 @@ def main(seed):
     expect("TraceEngine rejects a missing init stage", engine_rejects(lambda e: [x for x in e if x.get("site") != "init:stage3"]))
     expect("TraceEngine rejects an access before stage 4 by another thread",
            engine_rejects(lambda e: (lambda own: [dict(x, t=("t2" if own == "t1" else "t1")) if x.get("site") == "access" and x["seq"] < next(y["seq"] for y in e if y.get("site") == "init:stage4") else x for x in e])(next(y["t"] for y in e if y.get("site") == "init:enter"))))
+    # Context API: a corrupted recorded result is rejected and attributed by the last writer; a corrupted expected result is a replay mismatch
+    import ctxfam
+    tp = os.path.join(tlc.WORK, "self-ctxapi.ndjson")
+    core.run_vh(["ctxapi-record", "--seed", seed, "--n", 30, "--len", 30, "--out", tp])
+    hs = ctxfam.histories_of(core.read_ndjson(tp))
+
+    def ctx_rejects(mut, pid):
+        run = core.Run(pid, "quick", seed)
+        ctxfam.validate(run, pid, "self", mut(copy.deepcopy(hs)))
+        return len(run.violations)
+
+    def corrupt(hists, op):
+        for h in hists:
+            for k, e in enumerate(h):
+                if e["op"] == op and e["obs"][0] in ("ok", "some") and ctxfam.classify(h, k) == ("C08" if op == "get_func" else "C06"):
+                    e["obs"] = [e["obs"][0], "v3" if e["obs"][1] != "v3" else "v1"]
+                    return hists
+        return hists
+    expect("TraceContextApi accepts the unmodified histories", ctx_rejects(lambda h: h, "C06") == 0 and ctx_rejects(lambda h: h, "C08") == 0)
+    expect("TraceContextApi rejects a changed variable read (C06)", ctx_rejects(lambda h: corrupt(h, "get_variable"), "C06") == 1 and ctx_rejects(lambda h: corrupt(h, "get_variable"), "C08") == 0)
+    expect("TraceContextApi rejects a changed function lookup (C08)", ctx_rejects(lambda h: corrupt(h, "get_func"), "C08") == 1 and ctx_rejects(lambda h: corrupt(h, "get_func"), "C06") == 0)
+    rp = os.path.join(tlc.WORK, "self-ctxapi-replay.ndjson")
+    core.write_ndjson(rp, [{"hist": [{"op": "new", "h": 1, "a1": "", "a2": "", "obs": ["unit"]}, {"op": "set_variable", "h": 1, "a1": "n1", "a2": "v1", "obs": ["unit"]},
+                                     {"op": "alias", "h": 2, "a1": "1", "a2": "", "obs": ["unit"]}, {"op": "get_variable", "h": 2, "a1": "n1", "a2": "", "obs": ["nothing"]}]}])
+    out, _ = core.run_vh(["ctxapi-replay", rp])
+    expect("ctxapi-replay reports a wrong expected result", any("mismatch" in o for o in out))
     bad = [n for n, ok, _ in results if not ok]
     print("selftest: %d of %d passed" % (len(results) - len(bad), len(results)))
     return 1 if bad else 0
